@@ -22,14 +22,35 @@ type c10Case struct {
 	SQL1 string      `json:"sql1"`
 	SQL2 string      `json:"sql2"`
 	// a case of the exhaustive boolean-shape sweep instead of a statement tree
-	BoolSQL    string `json:"bool_sql,omitempty"`
-	BoolLeaves int    `json:"bool_leaves,omitempty"`
-	BoolExpect bool   `json:"bool_expect,omitempty"`
+	// Noise: texts that are NOT statements (truncated or garbled ones), parsed
+	// before and between the renderings: a refusal must leave nothing behind
+	// that changes how the next text is read
+	Noise      []string `json:"noise,omitempty"`
+	BoolSQL    string   `json:"bool_sql,omitempty"`
+	BoolLeaves int      `json:"bool_leaves,omitempty"`
+	BoolExpect bool     `json:"bool_expect,omitempty"`
 }
 
 func c10Gen(rt *rapid.T) c10Case {
 	s := gen.FreeStmt(rt)
-	return c10Case{Stmt: s, SQL1: gen.RenderAny(gen.NewStyle(rt), s), SQL2: gen.RenderAny(gen.NewStyle(rt), s)}
+	c := c10Case{Stmt: s, SQL1: gen.RenderAny(gen.NewStyle(rt), s), SQL2: gen.RenderAny(gen.NewStyle(rt), s)}
+	for k := rapid.SampledFrom([]int{0, 0, 1, 2, 3}).Draw(rt, "nnoise"); k > 0; k-- {
+		f := strings.Fields(gen.RenderAny(gen.Plain(), gen.FreeStmt(rt)))
+		if len(f) == 0 {
+			continue
+		}
+		switch rapid.IntRange(0, 3).Draw(rt, "noisekind") {
+		case 0, 1: // cut after a token
+			f = f[:rapid.IntRange(1, len(f)).Draw(rt, "cut")]
+		case 2: // one token replaced
+			f[rapid.IntRange(0, len(f)-1).Draw(rt, "at")] = rapid.SampledFrom([]string{"NULL", ",", "(", ")", "=", "FROM", "*", "'x'", "1", "AND", "a"}).Draw(rt, "tok")
+		default: // one token dropped
+			i := rapid.IntRange(0, len(f)-1).Draw(rt, "drop")
+			f = append(f[:i:i], f[i+1:]...)
+		}
+		c.Noise = append(c.Noise, strings.Join(f, " "))
+	}
+	return c
 }
 
 func condHasBoth(c *model.Cond) bool {
@@ -97,6 +118,16 @@ func c10Nontrivial(a gen.AnyStmt) (bool, []string) {
 	return nt, labels
 }
 
+// c10Recent: the refused texts this process has parsed lately. If a failure
+// depends on what an earlier refusal left behind in the parser, the saved case
+// must bring those texts along to fail in a fresh process too.
+var c10Recent []string
+
+func c10Amend(c c10Case) c10Case {
+	c.Noise = append(append([]string{}, c10Recent...), c.Noise...)
+	return c
+}
+
 func c10Run(c c10Case, st *vlib.Stats) string {
 	if c.BoolSQL != "" {
 		return c10CheckBool(c.BoolSQL, c.BoolLeaves, c.BoolExpect)
@@ -106,6 +137,15 @@ func c10Run(c c10Case, st *vlib.Stats) string {
 	st.Record(b, nt, labels...)
 	want := mk.Canon(mk.AnyAST(c.Stmt))
 	for i, q := range []string{c.SQL1, c.SQL2} {
+		for ni, n := range c.Noise {
+			if ni%2 == i {
+				mk.Guard(func() error { _, e := mk.ParseSQL(n); return e }) // whatever it answers
+				c10Recent = append(c10Recent, n)
+				if len(c10Recent) > 40 {
+					c10Recent = c10Recent[len(c10Recent)-40:]
+				}
+			}
+		}
 		var got interface{}
 		err := mk.Guard(func() error {
 			var e error
@@ -236,5 +276,5 @@ func TestC10(t *testing.T) {
 			return
 		}
 	}
-	vlib.DriveWith(t, vlib.Prop[c10Case]{ID: "C10", Gen: c10Gen, Run: c10Run}, Cfg, st)
+	vlib.DriveWith(t, vlib.Prop[c10Case]{ID: "C10", Gen: c10Gen, Run: c10Run, Amend: c10Amend}, Cfg, st)
 }
